@@ -27,7 +27,7 @@ EXPLANATION = ('Pairing / restoration rules on the CFG of Segment::justify (ever
                'showing that every link of a pre-existing slot is restored, the exact write set of gr_slot_linebreak_before, and the '
                'loader rule that keeps list mutators out of justification passes.  Finiteness of the returned width and origins, and '
                'reverseSlots being its own inverse for every diacritic arrangement, are not decided.')
-FLOORS = {'RESTORE': 2, 'REVERSEPAIR': 4, 'LINEENDPAIR': 3, 'UNDO': 2, 'LINEBREAK': 2, 'NOMUTPOS': 4, 'ADVIDX': 2}
+FLOORS = {'RESTORE': 2, 'REVERSEPAIR': 5, 'LINEENDPAIR': 3, 'UNDO': 2, 'LINEBREAK': 2, 'NOMUTPOS': 4, 'ADVIDX': 2}
 
 
 def _assign_blocks(fn, lhs_render, rhs_pred=None):
@@ -698,6 +698,17 @@ def run(run):
     justpool(run, fx)
     poolsize(run, fx)
     poolcount(run, fx)
+    from . import ordint as O_
+    rs_ = fx.one('graphite2::Segment::reverseSlots')
+    inst_ = 'reverseSlots: well-formed chain, documented order, its own inverse (interpreted)'
+    try:
+        cases_, bad_ = reverse_exec(run, fx, 5 if getattr(run, 'tier', 'quick') == 'quick' else 8)
+        if bad_:
+            run.violated('REVERSEPAIR', inst_, rs_.where(), bad_)
+        else:
+            run.held('REVERSEPAIR', inst_, rs_.where(), '%d streams x mark placements interpreted, each reversed twice' % cases_)
+    except O_.AnalysisBroken as ex:
+        run.broken('REVERSEPAIR', inst_, str(ex), rs_.where())
     linebreak(run, fx)
     nullwalk(run, fx)
     posreverse(run, fx)
@@ -864,3 +875,81 @@ def poolcount(run, fx):
     if n < 2:
         run.broken('UNDO', 'pool growth count', 'expected the constructor initialiser and the assignment in Segment::Segment, found %d stores' % n, nj.where())
     run.assume('unsigned arithmetic in the pool growth count does not wrap (log_binary(0) + 1 is 0: a segment of zero characters never asks for a slot or a justify record)')
+
+
+def reverse_exec(run, fx, maxn=5):
+    """REVERSEPAIR by bounded execution (rules/ordint.py): Segment::reverseSlots is interpreted on every stream of 0..maxn slots with every
+    placement of combining marks (bidi class 16; getSlotBidiClass is a native that reads the modelled class).  Afterwards the stream is a
+    well-formed doubly linked chain of the same slots (next from m_first visits each once and ends at m_last, prev is its exact inverse),
+    in the documented order -- leading marks stay, the clusters (a base and the marks after it) come in reverse order, each cluster kept
+    together -- and a second reversal gives back the original order (justify and positionSlots rely on the pair being the identity)."""
+    import itertools
+    from . import ordint as O
+    fn = fx.one('graphite2::Segment::reverseSlots')
+    PS, PG = 'graphite2::Slot::', 'graphite2::Segment::'
+    cases = 0
+
+    def chain(seg, n):
+        out, s, seen, prev = [], seg[PG + 'm_first'], set(), None
+        while isinstance(s, O.Ptr) and s.rec is not None:
+            if id(s.rec) in seen or len(out) > n + 2:
+                return None, 'the next chain from m_first runs into a cycle after %s' % out
+            seen.add(id(s.rec))
+            p = s.rec[PS + 'm_prev']
+            if (p.rec if isinstance(p, O.Ptr) else None) is not prev:
+                return None, 'slot #%d: prev is %s, but it is reached from %s' % (s.rec['#'], 'null' if p.rec is None else '#%d' % p.rec['#'], 'm_first' if prev is None else '#%d' % prev['#'])
+            out.append(s.rec['#'])
+            prev = s.rec
+            s = s.rec[PS + 'm_next']
+        last = seg[PG + 'm_last']
+        if (last.rec if isinstance(last, O.Ptr) else None) is not prev:
+            return None, 'm_last is %s, the chain ends at %s' % ('null' if last.rec is None else '#%d' % last.rec['#'], 'nothing' if prev is None else '#%d' % prev['#'])
+        return out, None
+    for n in range(0, maxn + 1):
+        for marks in itertools.product((False, True), repeat=n):
+            slots = [O.Rec() for _ in range(n)]
+            for k, sl in enumerate(slots):
+                sl[PS + 'm_next'] = O.Ptr(slots[k + 1]) if k + 1 < n else O.Ptr(None)
+                sl[PS + 'm_prev'] = O.Ptr(slots[k - 1]) if k else O.Ptr(None)
+                sl['#'] = k
+                sl['#cls'] = 16 if marks[k] else 0
+            seg = O.Rec({PG + 'm_first': O.Ptr(slots[0]) if n else O.Ptr(None), PG + 'm_last': O.Ptr(slots[-1]) if n else O.Ptr(None), PG + 'm_dir': 0})
+            nat = {'graphite2::Segment::getSlotBidiClass': lambda I, f, e, obj, a: I.rv(a[0]).rec['#cls']}
+            lead = 0
+            while lead < n and marks[lead]:
+                lead += 1
+            clusters = []
+            for k in range(lead, n):
+                if marks[k]:
+                    clusters[-1].append(k)
+                else:
+                    clusters.append([k])
+            want = list(range(lead)) + [k for c in reversed(clusters) for k in c]
+            if lead == n:
+                want = list(range(n))
+            desc = '%d slot(s), combining marks at %s' % (n, [k for k in range(n) if marks[k]] or 'none')
+            cases += 1
+            try:
+                it = O.Interp(fx, natives=nat)
+                it.MAX_STEPS = 5000
+                it.call(fn, seg, [])
+                got, err = chain(seg, n)
+                if err:
+                    return cases, '%s: after reverseSlots %s' % (desc, err)
+                if sorted(got) != list(range(n)):
+                    return cases, '%s: after reverseSlots the stream holds %s, not every slot exactly once' % (desc, got)
+                if got != want:
+                    return cases, '%s: reverseSlots gives the order %s, the documented order (clusters reversed, marks after their base) is %s' % (desc, got, want)
+                it = O.Interp(fx, natives=nat)
+                it.MAX_STEPS = 5000
+                it.call(fn, seg, [])
+                got2, err = chain(seg, n)
+                if err:
+                    return cases, '%s: after the second reverseSlots %s' % (desc, err)
+                if got2 != list(range(n)):
+                    return cases, '%s: reversing twice gives %s, not the original order' % (desc, got2)
+                if seg[PG + 'm_dir'] != 0:
+                    return cases, '%s: reversing twice leaves m_dir = %r' % (desc, seg[PG + 'm_dir'])
+            except O.Violation as v:
+                return cases, '%s: %s (%s)' % (desc, v.what, v.loc)
+    return cases, None
